@@ -75,8 +75,8 @@ def run(ctx):
                 p["legacy"] = 1
                 pa.append(p)
                 pb.append(q)
-        ba = runcheck.run_batch(ctx, bdir, A, pa, [], "legacy calls", replay=False)
-        bb = runcheck.run_batch(ctx, bdir, A, pb, [], "hand-built objects")
+        ba = runcheck.run_batch(ctx, bdir, A, pa, [], "legacy calls", replay=False, blame_crash=False)
+        bb = runcheck.run_batch(ctx, bdir, A, pb, [], "hand-built objects", blame_crash=False)
         runcheck.compare_pairs(ctx, [r for _, r, _ in ba], [r for _, r, _ in bb], relate, "pairs (legacy | object)", {"cause": "legacy call differs from the object API"})
         # legacy global population is used exactly when the object has no explicit population
         pc, pd = [], []
@@ -96,8 +96,8 @@ def run(ctx):
                 s_["pop"] = g + 5
                 pc.append(r_)
                 pd.append(s_)
-        bc = runcheck.run_batch(ctx, bdir, A, pc, [], "global population default", replay=False)
-        bd = runcheck.run_batch(ctx, bdir, A, pd, [], "explicit population", replay=False)
+        bc = runcheck.run_batch(ctx, bdir, A, pc, [], "global population default", replay=False, blame_crash=False)
+        bd = runcheck.run_batch(ctx, bdir, A, pd, [], "explicit population", replay=False, blame_crash=False)
 
         def rel2(a, b):
             if len(a.calls) != len(b.calls):
